@@ -93,6 +93,9 @@ func main() {
 		var ni []string
 		ov, ni = core.InlineIIFE(abs, ov)
 		normNotes = append(normNotes, ni...)
+		// memo tables local to one call and keyed by all that the value depends on: the value is computed in place
+		ov, ni = core.InlineMemo(abs, ov)
+		normNotes = append(normNotes, ni...)
 		if core.NamesDiffer(abs, ov, bl) {
 			var n0, n1 []string
 			ov, n0 = core.UnbundleParams(abs, ov, *goarch, bl)
